@@ -343,7 +343,8 @@ fn main() {
         violations: violations.len() as u64,
         known_lines: known_lines.clone(),
         wall_s: timer.secs(),
-        extra: json!({"workers": workers, "vacuity_warnings": warn, "listed_known_findings": known::listed_ids(&id), "coverage_guided_stage": fuzz_report}),
+        extra: json!({"workers": workers, "vacuity_warnings": warn, "listed_known_findings": known::listed_ids(&id), "coverage_guided_stage": fuzz_report,
+            "function_level_suites_disabled": hv::direct::disabled().iter().map(|f| format!("{}: the harness could not be built against the current signature of this helper; its function-level suite was not run", f)).collect::<Vec<_>>()}),
         exhaustive: false,
     };
     let evp = write_evidence(&ev);
